@@ -129,6 +129,12 @@ async def run_steps(env: Env, node: NodeSpec, phase: str, steps: list):
             v = await get_resource(t, name)
             env.values[(node.idx, label)] = v
             env.ev("wait_end", node.idx, label)
+        elif k == "giveup":
+            # ("giveup", type, name): an optional dependency that is given up at once (cancelled while waiting)
+            _, t, name = st
+            with anyio.move_on_after(0) as scope:
+                await get_resource(t, name)
+            env.ev("gave_up", node.idx, scope.cancelled_caught)
         elif k == "opt":
             _, label, t, name = st
             steps_before = None
